@@ -474,6 +474,22 @@ type RealOut struct {
 	ExitCodes []int
 	Stdout    string
 	SetValRes []string // ok | notfound | err:<text> per SetValue call
+	ReqArgRes []string // per GetRequiredArg* call, see reqArgResult
+}
+
+// canonical result of one GetRequiredArg* call
+func reqArgResult(kind int, v string, i int, f float64, rest []string, err error, written string) string {
+	switch {
+	case err == nil && kind == 0:
+		return "ok v=" + hx(v) + " rest=" + hxList(rest)
+	case err == nil && kind == 1:
+		return "ok i=" + strconv.Itoa(i) + " rest=" + hxList(rest)
+	case err == nil:
+		return "ok f=" + floatBits(f) + " rest=" + hxList(rest)
+	case errors.Is(err, getoptions.ErrorHelpCalled):
+		return "missing w=" + hx(written) + " rest=" + hxList(rest)
+	}
+	return "err:" + hx(err.Error()) + " w=" + hx(written) + " rest=" + hxList(rest)
 }
 
 func setEnv(c *Case) func() {
@@ -599,6 +615,40 @@ func runRealInner(c *Case, out *RealOut) {
 				}
 			}
 			out.SetValRes = append(out.SetValRes, res)
+		}
+	}
+	if err == nil && len(c.ReqArgs) > 0 {
+		cur := rem
+		for _, ra := range c.ReqArgs {
+			res := "none"
+			if ra.H < len(rp.handles) {
+				var wb bytes.Buffer
+				getoptions.Writer = &wb
+				var secs []getoptions.HelpSection // nil when none are given, as in a call without sections
+				for _, sec := range ra.Secs {
+					secs = append(secs, getoptions.HelpSection(sec))
+				}
+				g := rp.handles[ra.H]
+				var (
+					v    string
+					iv   int
+					fv   float64
+					rest []string
+					e    error
+				)
+				switch ra.Kind {
+				case 0:
+					v, rest, e = g.GetRequiredArg(cur, secs...)
+				case 1:
+					iv, rest, e = g.GetRequiredArgInt(cur, secs...)
+				default:
+					fv, rest, e = g.GetRequiredArgFloat64(cur, secs...)
+				}
+				getoptions.Writer = &w
+				res = reqArgResult(ra.Kind, v, iv, fv, rest, e, wb.String())
+				cur = rest
+			}
+			out.ReqArgRes = append(out.ReqArgRes, res)
 		}
 	}
 	out.P = map[string]string{}
